@@ -13,7 +13,7 @@ DECIDES = ('Decides that every path on which the survivor sees the death reaches
 RULES = {
     'R1': 'detection leads to teardown: POLLNVAL, POLLHUP, a disconnected setup socket and -ESHUTDOWN from request processing reach qb_ipcs_disconnect before the dispatcher returns; same in the liveness callback; a finished handshake always unregisters, closes or hands over, and frees',
     'R2': 'release coverage: the transport disconnects, evaluated per connection state and composed along ACTIVE and ESTABLISHED->SHUTTING_DOWN, release every resource of the matching connect exactly once',
-    'R3': 'a failing connect closes the rings it already opened (evaluated per failure point)',
+    'R3': 'a failing connect closes the rings it already opened, on the socket transport the datagram sockets it already made (evaluated per failure point)',
     'R4': 'client waits: each receive slice is at most QB_IPC_MAX_WAIT_MS, the retry loop needs is_connected, failed receives and event_recv consult the liveness socket (&c->setup), every disconnected result clears is_connected',
     'R5': 'client shm disconnect closes all three rings through one destructor; the forced destructor is chosen when not connected and the server pid is gone (or unknown); force close unlinks with truncate fallback',
     'R6': 'server shm disconnect: SIGBUS handler installed before any ring close, setjmp test before them, handler restored on every exit',
@@ -23,7 +23,7 @@ RULES = {
     'R10': 'descriptor 0 is a descriptor: no teardown or cleanup path of the transports decides whether a socket is open by comparing it with > 0 (the server\'s accept() returns 0 when stdin is closed; skipping it leaves its poll entry behind, and the entry outlives the connection), and the client\'s connect cleanup closes a socket only where it is known to have been opened (>= 0, after being preset to -1) - it used to close(0) for sockets it had never opened',
     'R11': 'what is not a disconnect is not taken for one (is_connected, once cleared, stays cleared and the client then no longer waits): qb_ipc_us_sock_error_is_disconnected, evaluated for each error code, answers no for the transient results - EAGAIN, ETIMEDOUT, EINTR, EMSGSIZE, ENOMSG, EINVAL and ENOBUFS (the caller\'s receive buffer is too small for the message that is waiting) - and yes for ENOTCONN, ECONNRESET, EPIPE, ESHUTDOWN, EBADF',
 }
-FLOORS = {'R1': 9, 'R2': 10, 'R3': 6, 'R4': 7, 'R5': 5, 'R6': 3, 'R7': 2, 'R8': 2, 'R9': 7, 'R10': 3, 'R11': 12}
+FLOORS = {'R1': 9, 'R2': 10, 'R3': 11, 'R4': 7, 'R5': 5, 'R6': 3, 'R7': 2, 'R8': 2, 'R9': 7, 'R10': 3, 'R11': 12}
 
 POLLNVAL, POLLHUP, POLLIN = 0x20, 0x10, 0x1
 
@@ -259,6 +259,7 @@ def r3(ctx):
                   'when %s fails the rings closed are %s, opened were %s (shared-memory files of a half-built connection stay behind / a never-opened ring is closed)' % (what, sorted(closed), sorted(want)))
         rets = [(ev, env) for (ev, env) in visits if ev.kind == 'RETURN' and env.get(resv) == -5]
         ctx.check('R3', 'shm_connect:fail-at-%s-reported' % what.replace(' ', '-'), bool(rets), failing, 'the failure is returned', 'the failure is swallowed')
+    _r3_socket_connect(ctx)
     o = prog.fn('qb_ipcs_shm_rb_open')
     for callee in ('qb_rb_chown', 'qb_rb_chmod'):
         sts = [st for st in o.events('STORE') if st.rhs is not None and callee_of(unwrap(st.rhs)) == callee]
@@ -293,6 +294,43 @@ def r3(ctx):
         ctx.check('R3', 'client_connect:fail-at-ring-%d' % (i + 1), set(closed) == want and len(closed) == len(want), failing,
                   'client: when ring %d cannot be opened the %d opened before are closed' % (i + 1, len(want)),
                   'client: ring %d fails, closed %s, opened %s' % (i + 1, sorted(closed), sorted(want)))
+
+
+def _r3_socket_connect(ctx):
+    """socket transport: the datagram sockets qb_ipcs_us_connect has made are closed again when a later step fails (the connection
+    is then dropped in state INACTIVE, in which the transport disconnect closes nothing)"""
+    prog = ctx.prog
+    f = prog.fn('qb_ipcs_us_connect')
+    steps = [st for st in f.events('STORE') if st.rhs is not None and unwrap(st.lhs).get('k') == 'var' and
+             callee_of(unwrap(st.rhs)) in ('qb_ipc_dgram_sock_setup', 'set_sock_size', '_sock_add_to_mainloop')]
+    makes = [st for st in steps if callee_of(unwrap(st.rhs)) == 'qb_ipc_dgram_sock_setup']
+    if len(makes) != 2 or len(steps) < 4:
+        raise AnalysisBroken('qb_ipcs_us_connect: datagram sockets made=%d fallible steps=%d' % (len(makes), len(steps)))
+    s0 = list(steps)
+    steps = sorted(s0, key=lambda s_: sum(1 for o_ in s0 if f.ev_dominates(o_, s_)))
+    resv = estr(steps[0].lhs)
+    if any(estr(s_.lhs) != resv for s_ in steps):
+        raise AnalysisBroken('qb_ipcs_us_connect: the steps do not share a result variable')
+
+    def made_name(st):
+        a = unwrap(unwrap(st.rhs)['args'][2])
+        a = unwrap(a['e']) if a.get('k') == 'addr' else a
+        ch = field_chain(a)
+        return 'sock:' + (ch[0] if ch else estr(a))
+    for i, failing in enumerate(steps):
+        want = {made_name(m) for m in makes if m is not failing and f.ev_dominates(m, failing)}
+
+        def eff(ev, env, failing=failing):
+            if any(ev.d is s_.d for s_ in steps):
+                return {resv: (-5 if ev.d is failing.d else 0), '#skip': True}
+            return None
+        visits, _t = abstract_run(f, {}, tracked={resv}, effect=eff)
+        closed = [r for r in (_res_id(ev) for (ev, env) in visits if ev.kind == 'CALL' and env.get(resv) == -5) if r and r.startswith('sock:')]
+        what = '%s#%d' % (callee_of(unwrap(failing.rhs)), i + 1)
+        ctx.check('R3', 'us_connect:fail-at-%s' % what, want <= set(closed) and 'sock:setup' not in closed and len(closed) == len(set(closed)), failing,
+                  'when %s fails the datagram sockets made before (%s) are closed, the stream socket is left to the caller' % (what, sorted(want) or 'none'),
+                  'when %s fails the sockets closed are %s, made were %s: the connection is dropped in state INACTIVE, in which the transport disconnect closes nothing - every refused peer costs the server a descriptor for good'
+                  % (what, sorted(closed), sorted(want)))
 
 
 def r4(ctx):
